@@ -17,6 +17,9 @@ use syn::*;
 #[derive(Default)]
 pub struct IoCtx {
     pub mode: bool,
+    /// the unit being translated is an I/O unit (it has `IoMode` items): `Result<T, _>` is `Ty::Res` there;
+    /// elsewhere (builder N's state-passing units) a `Result` whose error is never inspected is an `Option`
+    pub unit_io: bool,
     /// the buffer variable a pending `intf.read(.., &mut buf)` / `read_with_status` fills, and whether the
     /// action also returns a status byte
     pub pending_wb: Option<(String, bool)>,
